@@ -17,6 +17,8 @@ import (
 	"context"
 	"errors"
 	"fmt"
+	"os"
+	"regexp"
 	"sort"
 	"strings"
 	"time"
@@ -32,16 +34,29 @@ type spec struct {
 	N, W     int
 	Fan      int    // values each mapper writes
 	GenPanic int    // generator panics before item i (-1: never)
-	MapFault string // "", cancel-err, cancel-nil, panic, stall
-	MapAt    int
-	Reducer  string // drain-write | no-write | write-early | cancel | panic
-	Ctx      string // "", timeout, cancel
+	// generator stalls on a gate before item i (i == N: after the last item, before it returns); -1: never.
+	// GenStall "held": the gate opens only after the call has returned (like a stalled mapper);
+	// "slow": a harness thread opens it at a moment chosen by the explorer (before or after the
+	// context ended / the cancel / the return)
+	GenStallAt int
+	GenStall   string
+	MapFault   string // "", cancel-err, cancel-nil, panic, stall (before writing), write-stall (writes, then stalls)
+	MapAt      int
+	// drain-write (reads everything, then writes) | no-write | write-first (writes before reading,
+	// then drains) | write-mid (writes after 1 read, then drains) | write-early (writes after 1
+	// read and returns) | cancel | panic
+	Reducer string
+	Ctx     string // "", timeout, cancel
+	bound   *vx.Bounds // own exploration bounds (nil: the tier's)
 }
 
 func (s spec) name() string {
 	n := fmt.Sprintf("%s-N%d-W%d-f%d", s.Entry, s.N, s.W, s.Fan)
 	if s.GenPanic >= 0 {
 		n += fmt.Sprintf("-genpanic%d", s.GenPanic)
+	}
+	if s.GenStall != "" {
+		n += fmt.Sprintf("-gen:%s@%d", s.GenStall, s.GenStallAt)
 	}
 	if s.MapFault != "" {
 		n += fmt.Sprintf("-map:%s@%d", s.MapFault, s.MapAt)
@@ -98,8 +113,31 @@ func scenario(s spec) vx.Scenario {
 		if s.Ctx != "" {
 			opts = append(opts, mr.WithContext(ctx))
 		}
+		genGate := gate
+		if s.GenStall == "slow" {
+			// a slow generator: it resumes at a moment the explorer chooses
+			genGate = vsched.MakeChan[struct{}](0)
+			g := genGate
+			vsched.GoNamed("releaser", false, func() {
+				vsched.Op("before-gen-release")
+				vsched.Log("gen-release")
+				vsched.Close(g)
+			})
+		}
 		generate := func(src chan<- int) {
-			for i := 0; i < s.N; i++ {
+			for i := 0; i <= s.N; i++ {
+				if s.GenStall != "" && i == s.GenStallAt {
+					vsched.Log("stall-begin generator")
+					if s.GenStall == "late" {
+						vsched.TimeSleep(2 * time.Hour) // resumes on the virtual clock, after the sleeping reducer's write
+					} else {
+						vsched.Recv(genGate)
+					}
+					vsched.Log("stall-end generator")
+				}
+				if i == s.N {
+					break
+				}
 				if i == s.GenPanic {
 					vsched.Log("panic gen")
 					panic(userPanic{"generator"})
@@ -129,13 +167,20 @@ func scenario(s spec) vx.Scenario {
 					vsched.Log("panic mapper")
 					panic(userPanic{"mapper"})
 				case "stall":
+					vsched.Log("stall-begin mapper")
 					vsched.Recv(gate) // released by the harness after the call returned
+					vsched.Log("stall-end mapper")
 				}
 			}
 			for k := 0; k < s.Fan; k++ {
 				v := i*10 + k
 				vsched.Log("mw %d", v)
 				write(v)
+			}
+			if s.MapFault == "write-stall" && i == s.MapAt {
+				vsched.Log("stall-begin mapper")
+				vsched.Recv(gate)
+				vsched.Log("stall-end mapper")
 			}
 			o.gauge.Add(-1)
 		}
@@ -144,12 +189,42 @@ func scenario(s spec) vx.Scenario {
 		}
 		reducer := func(pipe <-chan int, w mr.Writer[int], cancel func(error)) {
 			sum, n := 0, 0
+			wrote := false
+			// the one write of the reducer; whether the context had ALREADY ended when the write
+			// began is part of the cause of whatever happens inside it (such a write must be dropped)
+			writeOut := func() {
+				late := ""
+				if s.Ctx != "" && ctx.Err() != nil {
+					late = " after-ctx-end"
+				}
+				vsched.Log("rw-begin %d%s", sum, late)
+				w.Write(sum)
+				vsched.Log("rw-end")
+				wrote = true
+			}
+			writeAt := -1
+			switch s.Reducer {
+			case "write-first":
+				writeAt = 0
+			case "write-mid", "write-early", "sleep-write-mid":
+				writeAt = 1
+			case "sleep-write":
+				writeAt = 0
+			}
 			for {
-				if s.Reducer == "write-early" && n == 1 {
-					vsched.Log("rw-begin %d", sum)
-					w.Write(sum)
-					vsched.Log("rw-end")
-					return
+				if n == writeAt && !wrote && strings.HasPrefix(s.Reducer, "sleep-write") {
+					// with timer-deviation bound 0 a virtual timer fires only when NO thread is enabled:
+					// the write below happens at global quiescence - whoever has invoked cancel by then
+					// is blocked inside it (or is through with it)
+					vsched.Log("sleep-begin")
+					vsched.TimeSleep(time.Hour)
+					vsched.Log("sleep-end")
+				}
+				if n == writeAt && !wrote {
+					writeOut()
+					if s.Reducer == "write-early" {
+						return
+					}
 				}
 				v, ok := vsched.Recv2(pipe)
 				if !ok {
@@ -180,9 +255,9 @@ func scenario(s spec) vx.Scenario {
 				vsched.Log("panic reducer")
 				panic(userPanic{"reducer"})
 			default:
-				vsched.Log("rw-begin %d", sum)
-				w.Write(sum)
-				vsched.Log("rw-end")
+				if !wrote {
+					writeOut()
+				}
 			}
 		}
 		func() {
@@ -246,7 +321,14 @@ func scenario(s spec) vx.Scenario {
 	} else if s.Ctx != "" || s.MapFault == "stall" {
 		w *= 4
 	}
-	return vx.Scenario{Name: s.name(), Body: body, Check: check, Weight: w}
+	if s.GenStall == "slow" {
+		w *= 3
+	}
+	sc := vx.Scenario{Name: s.name(), Body: body, Check: check, Weight: w}
+	if s.bound != nil {
+		sc.P, sc.T, sc.SetBound = s.bound.P, s.bound.T, true
+	}
+	return sc
 }
 
 type nopWriter struct{}
@@ -267,12 +349,36 @@ func judge(s spec, e *vsched.Exec, o *obs) vx.Verdict {
 	case "ok":
 	case "deadlock":
 		// cause key: with call sites captured (replay of the failure) the root cause is named by
-		// the stuck operation that nobody will ever serve; the other blocked threads wait for it
+		// the stuck operation that nobody will ever serve; the other blocked threads wait for it.
+		// Everything the log proves about the cause is part of the key in BOTH modes (the explorer
+		// de-duplicates failures by the key computed without call sites).
 		kind, what := "caller-deadlock", "the call never returns: "
 		if o != nil && o.returned {
 			kind, what = "leak", "the call returned but threads it started never exit: "
 		}
-		key := "{" + e.BlockedKey() + "}"
+		stalled := stalledRoles(log)
+		late := lateWrite(s, log)
+		key := "{" + harnessSites(e.BlockedKey()) + "}" + late
+		if !e.Traced() {
+			// no sites yet: keep causes apart that the log already tells apart
+			if p := idx("panic "); p >= 0 {
+				key += ":after-" + strings.ReplaceAll(log[p], " ", "-")
+			}
+			if stalled != "" {
+				key += ":stalled=" + stalled
+			}
+			if idx("rw-end") >= 0 {
+				key += ":reducer-write-returned"
+			}
+			return vx.Verdict{Class: kind + key, Msg: what + strings.Join(e.Blocked(), " "), Sig: kind}
+		}
+		mainAt := ""
+		for _, b := range e.Blocked() {
+			if strings.HasPrefix(b, "T0(main):") {
+				mainAt = harnessSites(strings.TrimPrefix(b, "T0(main):"))
+			}
+		}
+		panicStuck := false
 		for _, b := range e.BlockedSites() {
 			if strings.Contains(b, "chan.send@mr.(*onceChan).write") {
 				// a recovered panic is being handed to a caller that no longer listens; WHICH panic
@@ -282,14 +388,28 @@ func judge(s spec, e *vsched.Exec, o *obs) vx.Verdict {
 				case strings.Contains(b, "{generator}") || strings.Contains(b, "{mapper}") || strings.Contains(b, "{reducer}"):
 					what = "user-panic"
 				case strings.Contains(b, "send-on-closed-channel"):
-					what = "send-on-closed-channel"
+					// raised by the reducer's Write: a write that BEGAN after the context had ended / a
+					// cancel had completed has a different cause than the check-then-send race
+					what = "send-on-closed-channel" + late
 				default:
 					if i := strings.LastIndex(b, "("); i >= 0 {
 						what = strings.Trim(b[i:], "()")
 					}
 				}
 				key = ":panic-write-unread:" + what
+				panicStuck = true
 			}
+		}
+		if !panicStuck && kind == "caller-deadlock" && stalled != "" {
+			// the call waits for a user function that is stalled until the call returns: the cause is
+			// WHERE the caller waits and WHO is stalled, not the incidental set of other waiters
+			key = "{caller:" + mainAt + ";stalled:" + stalled
+			if strings.Contains(mainAt, "mapReduceWithPanicChan.func") && idx("rw-end") >= 0 {
+				// the caller is in its deferred range over output: with the reducer's write behind it
+				// (it holds the result) or without (it left the select for another reason)
+				key += ";reducer-write-returned"
+			}
+			key += "}" + late
 		}
 		return vx.Verdict{Class: kind + key, Msg: what + strings.Join(e.Blocked(), " "), Sig: kind}
 	case "crash":
@@ -343,7 +463,11 @@ func judge(s spec, e *vsched.Exec, o *obs) vx.Verdict {
 	if o.panicked != nil {
 		up, isUser := o.panicked.(userPanic)
 		if !isUser {
-			return vx.Verdict{Class: "runtime-panic:" + strings.ReplaceAll(fmt.Sprint(o.panicked), " ", "-"), Msg: fmt.Sprintf("the call panicked with a non-user value: %v", o.panicked), Sig: "runtime-panic"}
+			late := ""
+			if strings.Contains(fmt.Sprint(o.panicked), "send on closed channel") {
+				late = lateWrite(s, log)
+			}
+			return vx.Verdict{Class: "runtime-panic:" + strings.ReplaceAll(fmt.Sprint(o.panicked), " ", "-") + late, Msg: fmt.Sprintf("the call panicked with a non-user value: %v", o.panicked), Sig: "runtime-panic"}
 		}
 		if panicWho == "" {
 			return vx.Verdict{Class: "phantom-panic", Msg: fmt.Sprintf("re-raised %v but no user function panicked", up)}
@@ -391,6 +515,14 @@ func judge(s spec, e *vsched.Exec, o *obs) vx.Verdict {
 	if s.Entry == "Finish" && cancelled != "" {
 		return vx.Verdict{Class: "cancel-ignored", Msg: "a function returned an error but Finish returned nil"}
 	}
+	if strings.HasPrefix(s.Reducer, "sleep-write") && s.bound != nil && s.bound.T == 0 && cancelled != "" {
+		// the reducer's sleep ended at global quiescence (T=0): a user function that had invoked
+		// cancel before that moment was BLOCKED inside cancel (not merely preempted on its way in) or
+		// had come back from it when the reducer wrote; the call must then report the cancel error
+		if cb, se := idx("cancel-begin"), idx("sleep-end"); cb >= 0 && se >= 0 && cb < se {
+			return vx.Verdict{Class: "result-returned-while-cancel-blocked", Msg: fmt.Sprintf("cancel(%s) had been invoked and its caller was blocked inside it when the reducer wrote, but the call returned (%v, nil)", cancelled, o.ret)}
+		}
+	}
 	cancelEnd, rwBegin := idx("cancel-end"), idx("rw-begin")
 	if cancelled != "" && s.Entry != "ForEach" && s.Entry != "FinishVoid" {
 		// normal result is only acceptable if the reducer's write was under way before the cancel completed
@@ -433,6 +565,61 @@ func judge(s spec, e *vsched.Exec, o *obs) vx.Verdict {
 	return vx.Verdict{Sig: fmt.Sprintf("ok:mapped=%d,reduced=%d,max=%d", len(mapped), len(reduced), o.maxGauge)}
 }
 
+// stalledRoles: user functions that entered a stall and were never released ("generator+mapper").
+func stalledRoles(log []string) string {
+	open := map[string]int{}
+	for _, l := range log {
+		if strings.HasPrefix(l, "stall-begin ") {
+			open[strings.TrimPrefix(l, "stall-begin ")]++
+		} else if strings.HasPrefix(l, "stall-end ") {
+			open[strings.TrimPrefix(l, "stall-end ")]--
+		}
+	}
+	var out []string
+	for r, n := range open {
+		if n > 0 {
+			out = append(out, r)
+		}
+	}
+	sort.Strings(out)
+	return strings.Join(out, "+")
+}
+
+// lateWrite: the reducer's write began, never came back, and the log proves that when it began
+// the call's end had already been decided — the context had ended (probed by the reducer right
+// before the write) or a cancel call had returned. Such a write has to be dropped by the writer.
+func lateWrite(s spec, log []string) string {
+	if s.Entry != "MapReduce" && s.Entry != "MapReduceChan" {
+		return ""
+	}
+	rb, ce := -1, -1
+	for i, l := range log {
+		switch {
+		case strings.HasPrefix(l, "rw-begin") && rb < 0:
+			rb = i
+		case l == "rw-end":
+			return ""
+		case l == "cancel-end" && ce < 0:
+			ce = i
+		}
+	}
+	switch {
+	case rb < 0:
+		return ""
+	case strings.HasSuffix(log[rb], "after-ctx-end"):
+		return ":write-began-after-ctx-end"
+	case ce >= 0 && ce < rb:
+		return ":write-began-after-cancel"
+	}
+	return ""
+}
+
+var harnessSiteRe = regexp.MustCompile(`@main\.[A-Za-z0-9_.]+(\([^)]*\))?`)
+
+// harnessSites replaces the call sites inside this harness (closure numbering, sent values) by a
+// fixed token, so that class keys do not change when the harness is edited.
+func harnessSites(s string) string { return harnessSiteRe.ReplaceAllString(s, "@harness") }
+
 func cause(cancelled string, ctxEnded bool) string {
 	if cancelled != "" {
 		return "cancel(" + cancelled + ")"
@@ -447,13 +634,22 @@ func main() {
 	cfg := vlib.ParseFlags("C10", "model_checking")
 	r := vlib.NewReport(cfg)
 	var sc []vx.Scenario
+	only := os.Getenv("VERIF_C10_ONLY") // development aid: explore only the scenarios whose name contains this
+	have := map[string]bool{}
 	add := func(s spec) {
 		if s.Reducer == "" {
 			s.Reducer = "drain-write"
 		}
+		if s.GenStall == "" {
+			s.GenStallAt = -1
+		}
+		if have[s.name()] || !strings.Contains(s.name(), only) {
+			return
+		}
+		have[s.name()] = true
 		sc = append(sc, scenario(s))
 	}
-	base := spec{GenPanic: -1}
+	base := spec{GenPanic: -1, GenStallAt: -1}
 	// fault-free matrix
 	for _, n := range []int{0, 1, 2, 3} {
 		for _, w := range []int{1, 2} {
@@ -552,6 +748,99 @@ func main() {
 	}
 	for _, s := range pairs {
 		add(s)
+	}
+	// the end of the context crossed with what the user functions are doing at that moment:
+	//   generator {normal, slow before item i / before returning, held until the call returned, panics}
+	// × context end {deadline on the virtual clock (timer deviation), cancellation by another thread}
+	// × reducer write timing {drains then writes, writes after 1 read (then drains / then returns), writes first}
+	// × mapper {normal, stalls before writing, writes then stalls}
+	type genT struct {
+		stall string
+		at    int
+		panic int
+	}
+	gens := []genT{{"", -1, -1}, {"slow", 1, -1}, {"", -1, 1}}
+	reds := []string{"drain-write", "write-mid", "write-early", "write-first"}
+	maps := []string{"", "stall", "write-stall"}
+	ctxs := []string{"timeout", "cancel"}
+	ws := []int{1}
+	if cfg.Thorough() {
+		gens = append(gens, genT{"slow", 2, -1}, genT{"slow", 0, -1})
+		ws = []int{1, 2}
+	}
+	for _, w := range ws {
+		for _, cx := range ctxs {
+			for _, g := range gens {
+				for _, red := range reds {
+					for _, mf := range maps {
+						if mf == "stall" && w == 1 && (red == "write-mid" || red == "write-early") {
+							continue // one worker, stalled before writing: the reducer never reads, same as drain-write
+						}
+						if g.stall == "slow" && !cfg.Thorough() && (mf == "stall" || red == "write-early") {
+							continue // quick tier: with a slow generator only the mapper that writes before it stalls, and write-mid for "after 1 read"
+						}
+						s := base
+						s.Entry, s.N, s.W, s.Fan, s.Ctx, s.Reducer = "MapReduce", 2, w, 1, cx, red
+						s.GenStall, s.GenStallAt, s.GenPanic = g.stall, g.at, g.panic
+						s.MapFault, s.MapAt = mf, 0
+						slow := s.GenStall == "slow"
+						switch {
+						case cx == "cancel" && slow:
+							// two helper threads (canceller, releaser): every placement of both at the
+							// blocking points of the others, without preemptions
+							s.bound = &vx.Bounds{P: 0, T: 0}
+						case cx == "cancel" && !cfg.Thorough():
+							// the canceller thread multiplies the schedule space: one item in the quick tier
+							s.N = 1
+							if s.GenPanic > 0 {
+								s.GenPanic = 0
+							}
+						case cfg.Thorough() && (w == 2 || slow || cx == "cancel" || mf != "" || g.panic >= 0):
+							s.bound = &vx.Bounds{P: 1, T: 1} // the rest of the family runs with the tier's P=2
+						}
+						add(s)
+						if cfg.Thorough() && cx == "cancel" && slow && w == 1 && s.GenStallAt <= 1 {
+							// and with one preemption on the one-item instance
+							s.N, s.bound = 1, &vx.Bounds{P: 1, T: 0}
+							add(s)
+						}
+					}
+				}
+			}
+		}
+	}
+	// a generator held until the call has returned (the convention for a stalled mapper applied
+	// to the generator): the call has to come back when the context ends or somebody cancels
+	for _, s := range []spec{
+		{Entry: "MapReduce", N: 2, W: 1, Fan: 1, GenPanic: -1, GenStall: "held", GenStallAt: 1, Ctx: "timeout"},
+		{Entry: "MapReduce", N: 2, W: 1, Fan: 1, GenPanic: -1, GenStall: "held", GenStallAt: 1, Ctx: "timeout", Reducer: "write-mid"},
+		{Entry: "MapReduce", N: 2, W: 2, Fan: 1, GenPanic: -1, GenStall: "held", GenStallAt: 1, MapFault: "cancel-err", MapAt: 0},
+		{Entry: "MapReduce", N: 2, W: 2, Fan: 1, GenPanic: -1, GenStall: "held", GenStallAt: 1, Reducer: "cancel"},
+		{Entry: "MapReduce", N: 2, W: 2, Fan: 1, GenPanic: -1, GenStall: "held", GenStallAt: 1, MapFault: "panic", MapAt: 0},
+	} {
+		add(s)
+	}
+	// a cancel that is BLOCKED (parked in drain(source) behind a generator asleep on the virtual
+	// clock for 2h) while the reducer, asleep for 1h, delivers its output at global quiescence;
+	// T=0, so the timers fire only when no thread is enabled
+	for _, w := range []int{1, 2} {
+		for _, k := range []int{1, 2} {
+			for _, mf := range []string{"cancel-err", "cancel-nil"} {
+				for _, red := range []string{"sleep-write", "sleep-write-mid"} {
+					if red == "sleep-write-mid" && !(w == 2 && k == 2) {
+						continue // the reducer gets a value to read only from a second mapper running beside the canceller
+					}
+					add(spec{Entry: "MapReduce", N: 2, W: w, Fan: 1, GenPanic: -1, GenStall: "late", GenStallAt: k,
+						MapFault: mf, MapAt: 0, Reducer: red, bound: &vx.Bounds{P: 1, T: 0}})
+				}
+			}
+		}
+	}
+	if os.Getenv("VERIF_C10_LIST") != "" { // development aid: print the scenario names of this tier
+		for _, x := range sc {
+			fmt.Println(x.Name)
+		}
+		os.Exit(0)
 	}
 	vx.Main(cfg, r, sc, vx.Bounds{P: 1, T: 1}, vx.Bounds{P: 2, T: 1},
 		"every interleaving (preemption bound / timer-deviation bound per scenario in the evidence) of small MapReduce instances (0-3 items, 1-2 workers, fan-out 0-2, six entry points) crossed with single faults and fault pairs placed in generator, mapper, reducer or the context; an execution is distinct/non-trivial by (scenario, outcome signature: normal result with mapped/reduced counts and peak mappers, justified error, re-raised user panic)")
